@@ -37,7 +37,7 @@ manifest = {
         "enable": "go1.26.8 test -c -tags verif ./props (module /verif/sim, replace github.com/pancsta/asyncmachine-go => /repo); hook call sites compile to empty inlined functions without the tag",
         "baseline_off_cmd": "cd /repo && go test -mod=mod -json -vet=off -count=1 -timeout 25m ./...",
         "source_commits": hook_commits,
-        "add_only": True,
+        "add_only": False,
     },
     "engines": [{
         "name": "sim",
@@ -47,7 +47,7 @@ manifest = {
     }],
     "checks": checks,
     "not_applicable": [{"property_id": k, "reason": v} for k, v in sorted(NOT_APPLICABLE.items()) if k not in META],
-    "notes": "All checks are seeded searches over schedules and fault sequences (level: exploration). Known findings: /verif/known_findings.json. Replay files: /verif/replays. See DESIGN.md.",
+    "notes": "All checks are seeded searches over schedules and fault sequences (level: exploration). Known findings: /verif/known_findings.json. Replay files: /verif/replays. See DESIGN.md. hooks.add_only is false for one line: rpc.Client.callLock changed type from sync.Mutex to simhook.Mutex, which is an alias of sync.Mutex without the verif tag; every other hook line is an addition.",
 }
 json.dump(manifest, open("MANIFEST.json", "w"), indent=1)
 print("claimed:", [c["property_id"] for c in checks])
